@@ -30,12 +30,20 @@ impl AES {
 
     pub fn decrypt_impl(key: &[u8], iv: &[u8], message: &[u8], algo: AESAlgorithms) -> Result<Vec<u8>, BSVErrors> {
         let result = match algo {
-            AESAlgorithms::AES128_CBC => Cbc::<Aes128, Pkcs7>::new_from_slices(key, iv)?.decrypt_vec(message)?,
-            AESAlgorithms::AES256_CBC => Cbc::<Aes256, Pkcs7>::new_from_slices(key, iv)?.decrypt_vec(message)?,
+            AESAlgorithms::AES128_CBC => AES::check_padding_length(message, Cbc::<Aes128, Pkcs7>::new_from_slices(key, iv)?.decrypt_vec(message)?)?,
+            AESAlgorithms::AES256_CBC => AES::check_padding_length(message, Cbc::<Aes256, Pkcs7>::new_from_slices(key, iv)?.decrypt_vec(message)?)?,
             AESAlgorithms::AES128_CTR => AES::aes_ctr::<Aes128Ctr>(key, iv, message)?,
             AESAlgorithms::AES256_CTR => AES::aes_ctr::<Aes256Ctr>(key, iv, message)?,
         };
         Ok(result)
+    }
+
+    /// PKCS#7 padding is between 1 and 16 bytes long; the padding crate bounds it by the buffer length only.
+    fn check_padding_length(ciphertext: &[u8], plaintext: Vec<u8>) -> Result<Vec<u8>, BSVErrors> {
+        if ciphertext.len() - plaintext.len() > 16 {
+            return Err(block_modes::BlockModeError.into());
+        }
+        Ok(plaintext)
     }
 
     fn aes_ctr<T: NewCipher + StreamCipherSeek + StreamCipher>(key: &[u8], iv: &[u8], message: &[u8]) -> Result<Vec<u8>, BSVErrors> {
